@@ -57,6 +57,16 @@ func boundedJoinOne(p *run.Part, cfg *seqx.Config, cc c16Case) {
 	want := full[total-k:]
 	l := w.Logs[cc.Dst]
 	got := hashesOf(l.Values().Slice())
+	unionSet := ref.ML[cc.Dst].Clone()
+	ref.M.Join(unionSet, ref.ML[cc.Src])
+	if !cfg.HashTie && ref.M.HasTie(unionSet.Set) {
+		// The ordering is not strict on these entries (two of them share clock id and time): the linearisation of
+		// the unbounded merge is then not unique (recorded known finding of C05), so "the last n of it" is only
+		// determined up to the order inside a tie group. Judged instead: the right number of entries, all from the
+		// union, no dropped entry strictly newer than a kept one, heads = unreferenced among the kept.
+		tiedOracle(p, ref, w, cc, got, k, rel)
+		return
+	}
 	if !eqStrings(got, want) {
 		p.Violate("bounded", "C16:values:n-"+rel+"-total", fmt.Sprintf("after %s: Join(%d<-%d, size=%d): Values()=%s, the last %d of the full merge are %s", path, cc.Dst, cc.Src, cc.N, short(ref, got), k, short(ref, want)), cc)
 		return
@@ -94,6 +104,49 @@ func boundedJoinOne(p *run.Part, cfg *seqx.Config, cc c16Case) {
 	if k > 0 && k < total {
 		p.Nontriv(fmt.Sprintf("%v/%d", want, cc.N))
 	}
+}
+
+func tiedOracle(p *run.Part, ref, w *seqx.World, cc c16Case, got []string, k int, rel string) {
+	path := seqx.PathString(cc.Path)
+	l := w.Logs[cc.Dst]
+	union := map[int]bool{}
+	for u := range ref.ML[cc.Dst].Set {
+		union[u] = true
+	}
+	for u := range ref.ML[cc.Src].Set {
+		union[u] = true
+	}
+	if len(got) != k || len(uniq(got)) != len(got) || l.Len() != k {
+		p.Violate("bounded", "C16:entries:n-"+rel+"-total", fmt.Sprintf("after %s: Join(%d<-%d, size=%d): %d entries kept (Len %d), expected %d", path, cc.Dst, cc.Src, cc.N, len(got), l.Len(), k), cc)
+		return
+	}
+	kept := map[int]bool{}
+	for _, h := range got {
+		u, ok := ref.UID[h]
+		if !ok || !union[u] {
+			p.Violate("bounded", "C16:entries:n-"+rel+"-total", fmt.Sprintf("after %s: Join(%d<-%d, size=%d) kept an entry that is not in the union", path, cc.Dst, cc.Src, cc.N), cc)
+			return
+		}
+		kept[u] = true
+	}
+	for d := range union {
+		if kept[d] {
+			continue
+		}
+		for kk := range kept {
+			if ref.M.Less(kk, d, false) {
+				p.Violate("bounded", "C16:values:n-"+rel+"-total", fmt.Sprintf("after %s: Join(%d<-%d, size=%d) dropped %s although it is strictly newer than the kept %s", path, cc.Dst, cc.Src, cc.N, string(ref.Ent[d].GetPayload()), string(ref.Ent[kk].GetPayload())), cc)
+				return
+			}
+		}
+	}
+	es := l.GetEntries().Slice()
+	gh := sortedStrings(hashesOf(l.Heads().Slice()))
+	if wh := unreferenced(es); !eqStrings(gh, wh) {
+		p.Violate("bounded", "C16:heads:n-"+rel+"-total", fmt.Sprintf("after %s: Join(%d<-%d, size=%d): heads=%s, unreferenced among the kept entries are %s", path, cc.Dst, cc.Src, cc.N, short(ref, gh), short(ref, wh)), cc)
+		return
+	}
+	p.Add(0, 1, 1, 1)
 }
 
 func c16Probe(p *run.Part, cfg *seqx.Config, seen *sync.Map) func(w *seqx.World, c seqx.Case) {
